@@ -655,7 +655,7 @@ class Gen:
         if self.cfg["tree"] == "none" and st["nvar"] == 0 and 1 <= st["N"] <= 40 and self.rng.chance(0.03):
             self.had_var = True                  # (MERCURIUS refuses to step once a variational configuration exists)
             return ("addvar",)
-        if self.cfg["tree"] != "none" and self.cfg["box"] and st["troot"] and self.rng.chance(0.07) \
+        if self.cfg["tree"] != "none" and self.cfg["box"] and (st["troot"] or self.rng.chance(0.3)) and self.rng.chance(0.07) \
                 and sum(1 for p in st["ps"] if p[2]) <= 6:
             return ("tupd", None)
         return op
@@ -665,7 +665,7 @@ class Gen:
         bad = self.cfg["malformed"] and r.chance(0.3)
         x = r.uniform()
         small = n < 3
-        if x < (0.45 if small else 0.25):
+        if x < (0.35 if small else 0.25):
             return self.add_op(st)
         if x < 0.45:
             if bad or n == 0:
@@ -1195,8 +1195,10 @@ def declare_factors():
             return "tree update needs a tree; MERCURIUS steps / variations / N_var writes are generated without a tree"
         if "istep" in (a, b) and ("addvar" in (a, b) or "setnvar" in (a, b)):
             return "MERCURIUS refuses to step with variational particles"
-        if (a, b) == ("addvar", "addvar") or (a == "istep" and b == "istep" and False):
+        if (a, b) == ("addvar", "addvar"):
             return "a second add_variation needs N_var == 0 again"
+        if a == "rmall" and b in ("istep", "addvar"):
+            return "a MERCURIUS step needs N >= 2 and add_variation N >= 1: not possible straight after remove_all"
         return None
     PAIRS.declare("event_adjacency", dict(op_at_s=kinds, op_at_s_plus_1=kinds), ex_adj)
 
@@ -1667,10 +1669,12 @@ def dims_harness(c, mr, dims, mr_valgrind=None):
                     c.violation(vkey, "%s, options %s: %s" % (integ, o, bad),
                                 {"integrator": integ, "options": o, "harness_lines": lines, "report": res["report"]})
     # deterministic witnesses of the two findings of this dimension (whatever the random histories happen to do)
-    for integ in ("whfast", "saba", "ias15", "leapfrog", "janus", "mercurius", "eos", "bs", "trace"):
+    for integ in ("whfast", "saba", "ias15", "leapfrog", "janus", "mercurius", "eos", "bs", "trace", "none"):
         L = ["new 0 0 0 %d" % INTEGRATORS[integ], "set dt 0.01", "addo 1 1.0 0.0 0.0 0.0 0.0 0.0 0.0 0.0",
              "addo 100 0.0001 0.0 1.0 0.0 0.0 0.0 1.0 0.0", "step 1", "rm 1 1", "step 1", "rm 0 1", "step 1",
-             "addo 1 1.0 0.0 0.0 0.0 0.0 0.0 0.0 0.0", "step 1"]
+             "addo 1 1.0 0.0 0.0 0.0 0.0 0.0 0.0 0.0", "step 1", "addo 101 0.0001 0.0 1.5 0.0 0.0 0.0 0.8 0.0", "step 1",
+             "rmall", "step 1", "addo 1 1.0 0.0 0.0 0.0 0.0 0.0 0.0 0.0", "addo 102 0.0001 0.0 1.2 0.0 0.0 0.0 0.9 0.0", "step 1"]
+        PAIRS.note("step_adjacency", dict(integrator=integ, op_before_step="rmall"))
         res = mr.run_text(L, timeout=300)
         if not res["bad"] and mr_valgrind is not None:
             res = mr_valgrind.run_text(L, timeout=300)
@@ -1686,6 +1690,9 @@ def dims_harness(c, mr, dims, mr_valgrind=None):
             k_ = "C14:step_with_N_1_and_N_0:" + integ
             if integ in ("whfast", "saba") and ("reb_particles_transform_inertial_to_jacobi" in rep_ or "reb_integrator_whfast_init" in rep_):
                 k_ = "F23:whfast-step-with-N-0-writes-outside-p_jh"
+            elif integ in ("mercurius", "trace") and "Invalid read" in rep_ and ("reb_integrator_mercurius_jump_step" in rep_ or "reb_integrator_trace_jump_step" in rep_
+                                                                                   or "_inertial_to_dh" in rep_):
+                k_ = "F25:hybrid-step-after-remove_all-dereferences-null-particles"
             c.violation(k_, "%s: step after the last particle was removed (N=0): %s" % (integ, rep_[:300].replace("\n", " | ")),
                         {"integrator": integ, "harness_lines": L, "report": rep_})
     if not c.thorough or mr_valgrind is not None:
